@@ -5,3 +5,9 @@ From V.proofs Require Import ExpectedDispatch.
 
 Theorem gen_tables_ok : gen_tables = expected_tables.
 Proof. vm_compute. reflexivity. Qed.
+
+(* rewriting the regenerated tables into the proved ones inside [cycle] *)
+Lemma gen_tables_ok_cycle B brd bwr btrig bcorrupt bime bset_ime bpending back :
+  cycle gen_tables B brd bwr btrig bcorrupt bime bset_ime bpending back =
+  cycle expected_tables B brd bwr btrig bcorrupt bime bset_ime bpending back.
+Proof. rewrite gen_tables_ok. reflexivity. Qed.
